@@ -180,3 +180,68 @@ pub fn c16(out: &mut dyn Write, tier: &str, rng: &mut Rng, st: &mut Stats) {
         }
     }
 }
+
+fn sudoku_rename(name: &str) -> Option<usize> {
+    // `_c_is_d` -> c * 16 + d
+    let rest = name.strip_prefix('_')?;
+    let (c, d) = rest.split_once("_is_")?;
+    Some(c.parse::<usize>().ok()? * 16 + d.parse::<usize>().ok()?)
+}
+
+pub fn c17(out: &mut dyn Write, tier: &str, rng: &mut Rng, st: &mut Stats) {
+    let mut cases: Vec<(usize, String)> = Vec::new();
+    // root 1
+    for p in ["1", ".", "", "  1\n", "x1"] { cases.push((1, p.to_string())); }
+    // root 2: hand-written layouts, blank symbols, short input, contradictory givens
+    for p in ["................", "1...............", "12..\n34..\n....\n....", "1 2 3 4\n3 4 1 2\n2 1 4 3\n4 3 2 1",
+              "11..............", "1234", "", "_-_-x·x·_-_-x·x·", "1...\n.2..\n..3.\n...4\n", "....\n....\n....\n...\"", "1\"34............",
+              "1.3.2...........", "4...............1", "1234341221434321 trailing text 99"] {
+        cases.push((2, p.to_string()));
+    }
+    let n2 = if tier == "thorough" { 3000 } else { 150 };
+    for _ in 0..n2 {
+        // a random solved grid (by permuting a base solution), with a random subset of givens shown
+        let base = [1, 2, 3, 4, 3, 4, 1, 2, 2, 1, 4, 3, 4, 3, 2, 1];
+        let mut perm = [1usize, 2, 3, 4];
+        for i in (1..4).rev() { let j = rng.below(i as u64 + 1) as usize; perm.swap(i, j); }
+        let blanks = ['.', '-', 'x', '_', ' ', '*'];
+        let blank = *rng.pick(&blanks[..]);
+        let keep = rng.below(17);
+        let mut s = String::new();
+        for (i, d) in base.iter().enumerate() {
+            let shown = rng.below(16) < keep;
+            if shown {
+                let mut dd = perm[*d - 1];
+                if rng.chance(1, 40) { dd = 1 + rng.below(4) as usize; } // sometimes contradictory
+                s.push_str(&dd.to_string());
+            } else if blank == ' ' { s.push('.'); } else { s.push(blank); }
+            if i % 4 == 3 && rng.chance(1, 2) { s.push('\n'); }
+            if rng.chance(1, 10) { s.push(' '); }
+        }
+        cases.push((2, s));
+    }
+    // root 3: a few puzzles (the formula has 729 variables; only structure and solution soundness)
+    let solved9 = "534678912672195348198342567859761423426853791713924856961537284287419635345286179";
+    let n3 = if tier == "thorough" { 50 } else { 4 };
+    for _ in 0..n3 {
+        let keep = 20 + rng.below(40);
+        let s: String = solved9.chars().map(|c| if rng.below(81) < keep { c } else { '.' }).collect();
+        cases.push((3, s));
+    }
+    for (root, puzzle) in cases {
+        let (class, stdout, _) = run_capture(&bin("sudoku_gen"), &["-r".into(), root.to_string()], puzzle.as_bytes(), 120);
+        let stripped: String = puzzle.chars().filter(|c| !c.is_whitespace()).collect();
+        st.hit(&format!("root{}.exit.{}", root, class));
+        if class != "ok" { writeln!(out, "C17|sudoku|{}|{}|{}|-|-", root, hex(stripped.as_bytes()), class).unwrap(); continue; }
+        match parse_text(&stdout, None) {
+            Parsed::Ok(pf) => {
+                let ast = ser_real_renamed(&pf.bdd, &sudoku_rename).unwrap_or_else(|| "ERR".to_string());
+                // the real solver is not used as an oracle here: without an operation cache rsbdd needs
+                // more than 20 minutes for a 4x4 puzzle (measured), so the models are checked directly
+                let solver = "-".to_string();
+                writeln!(out, "C17|sudoku|{}|{}|ok|{}|{}", root, hex(stripped.as_bytes()), ast, solver).unwrap();
+            }
+            _ => { writeln!(out, "C17|sudoku|{}|{}|ok|ERR|-", root, hex(stripped.as_bytes())).unwrap(); }
+        }
+    }
+}
